@@ -205,6 +205,56 @@ func queueClose(capacity, buf, preload int, op string, bound int) *vsched.Scenar
 // and returns). No goroutine may panic. A caller whose request was never served is, by
 // construction of the API, not answered: those callers are allowed to stay parked in YieldFrom
 // only if allowUnserved (see DESIGN: the nothing-blocks clause is decided separately).
+// queueCloseBacklog: a BufferedChannelQueue whose channel (capacity `capacity`) has just been emptied while `capacity`
+// more values wait in the overflow buffer, so that ONE loader pass moves hundreds of values; Close arrives while that
+// pass is under way (every order of the loader and the closer at their blocking / yielding points, no pre-emption):
+// no goroutine of the library panics, Close returns, later use reports "closed".
+func queueCloseBacklog(capacity, bound int) *vsched.Scenario {
+	fam := "queue-close-backlog"
+	return &vsched.Scenario{
+		Name:     fmt.Sprintf("bufferedchannelqueue/cap%d/backlog%d/close-during-one-loader-pass", capacity, capacity),
+		Bound:    bound,
+		MaxSteps: 4000000,
+		Horizon:  int64(time.Second),
+		Body: func() {
+			q := fpgo.NewBufferedChannelQueue[int](capacity, 4*capacity, 100)
+			for v := 0; v < 2*capacity; v++ {
+				if err := q.Offer(v); err != nil {
+					vsched.Event("offer-failed", v, errName(err))
+				}
+			}
+			ch := q.GetChannel()
+			for v := 0; v < capacity; v++ {
+				<-ch // (straight from the channel: the loader is not woken per value, it finds the whole room at once)
+			}
+			var wg sync.WaitGroup
+			wg.Add(2)
+			vsched.GoNamed("closer", func() {
+				q.Close()
+				vsched.Event("close-returned")
+				wg.Done()
+			})
+			vsched.GoNamed("taker", func() {
+				_, err := q.Poll() // wakes the loader
+				vsched.Event("polled", errName(err))
+				wg.Done()
+			})
+			wg.Wait()
+			vsched.Event("after", errName(q.Offer(-1)))
+		},
+		Check: func(r *vsched.Result) []vsched.Failure {
+			fs := e1.Basic("C15", fam, r, nil)
+			if len(fs) > 0 {
+				return fs
+			}
+			if e1.Count(r, "offer-failed") > 0 || e1.Count(r, "close-returned") != 1 || e1.Count(r, "after", "closed") != 1 {
+				fs = append(fs, e1.Fail("C15|"+fam+"|wrong-result", "Close during a long loader pass: %v", r.Events[len(r.Events)-min(len(r.Events), 6):]))
+			}
+			return fs
+		},
+	}
+}
+
 func corFinish(callers, serves, bound int) *vsched.Scenario {
 	fam := "cor-finish"
 	return &vsched.Scenario{
@@ -414,6 +464,7 @@ func scenarios(tier string) []*vsched.Scenario {
 			out = append(out, queueClose(cf.c, cf.b, cf.pre, op, b))
 		}
 	}
+	out = append(out, queueCloseBacklog(3, 1), queueCloseBacklog(70, 0), queueCloseBacklog(300, 0), queueCloseBacklog(1100, 0))
 	pc := []scenlib.PoolCfg{{Cap: 1, Buf: 1, Max: 1, StandBy: 1, Batch: 1}, {Cap: 1, Buf: 0, Max: 2, StandBy: 0, Batch: 1}}
 	for _, c := range pc {
 		for _, when := range []string{"now", "scheduled", "started", "idle"} {
@@ -433,4 +484,11 @@ func scenarios(tier string) []*vsched.Scenario {
 		out = append(out, corFinish(3, 2, 2), corFinish(3, 1, 2), corFinish(7, 1, 2), corFinish(8, 2, 2))
 	}
 	return out
+}
+
+func min(a, b int) int {
+	if a < b {
+		return a
+	}
+	return b
 }
